@@ -9,3 +9,7 @@ import GoFlags.Props.C05
 #print axioms GoFlags.C05.defaults_start_from_empty
 #print axioms GoFlags.C05.first_occurrence_discards_contents
 #print axioms GoFlags.C05.as_defaults_never_overrides_closed_option
+#print axioms GoFlags.C05.optSetDefault_other
+#print axioms GoFlags.C05.setDefaults_other
+#print axioms GoFlags.C05.optClearDefault_other
+#print axioms GoFlags.C05.closed_option_survives_defaults_phase
